@@ -2,6 +2,7 @@ import Wayfind.Proofs.Reachable
 import Wayfind.Spec.Grammar
 import Wayfind.Generated.Facts
 import Wayfind.Proofs.Oci6
+import Wayfind.Proofs.Regex2
 
 /-! # C17 — the OCI example routes every distribution-spec endpoint to its handler
 Generated obligations (the route table and the name pattern are re-extracted from `examples/oci/src` on every run):
@@ -23,9 +24,16 @@ counted from the end (`fits_opat`), the patterns of different templates differ i
 exception, `/v2/<name>/blobs/uploads` read as a blob with digest `uploads`, is excluded because the table registers the
 two under different methods — generated obligation `C17_methods_do_not_clash`), and a unique fit is what `search` returns
 (`search_unique_fit`, from C01–C03). `C17_get_router_exists` builds the GET router through the API (non-vacuity).
-Status: **partial** only in what no model can carry — that the `regex` crate implements the pattern (the theorem
-quantifies over names the constraint accepts; that the constraint accepts exactly the spec's grammar is tied by the `oci`
-suite against an independent hand-written recogniser over every name up to the tier's length over `a 0 . _ - / A`). -/
+**The name constraint** (`C17_name_pattern_is_grammar`, fifth session): the pattern literal of
+`examples/oci/src/constraints/name.rs`, as extracted on this run, is parsed by `parseRe` (a model of anchored regular
+expressions: classes, groups, alternation, `+ * ?`) and matched by Brzozowski derivatives; `Re.matches_iff` shows that the matcher
+decides the denotation `Re.Lang`, and `OciName.lang_name` that the denotation of this pattern is the repository-name grammar
+written out as a grammar (`OciName.IsName`: components joined by '/', a component a word followed by (separator, word)
+pairs, a word `[a-z0-9]+`, a separator `.`, `_`, `__` or one or more `-`). Names of any length.
+Status: **partial** only in what no model can carry — that the `regex` crate implements the pattern: the harness reports
+the crate's answer for every name of the `oci` suite (operation `nameck`: every name up to the tier's length over
+`a 0 . _ - / A`, plus a pool of long and odd names) and the judge compares it with the Lean matcher on the same bytes
+(oracle C17; stream `nameck`); an independent hand-written recogniser in the harness is compared as well. -/
 
 theorem C17_route_table : Generated.ociRoutes = [([71, 69, 84], [47, 118, 50, 40, 47, 41], [104, 97, 110, 100, 108, 101, 95, 114, 111, 111, 116, 95, 103, 101, 116]), ([71, 69, 84], [47, 118, 50, 47, 123, 42, 110, 97, 109, 101, 58, 110, 97, 109, 101, 125, 47, 98, 108, 111, 98, 115, 47, 123, 100, 105, 103, 101, 115, 116, 125, 40, 47, 41], [104, 97, 110, 100, 108, 101, 95, 98, 108, 111, 98, 95, 112, 117, 108, 108]), ([72, 69, 65, 68], [47, 118, 50, 47, 123, 42, 110, 97, 109, 101, 58, 110, 97, 109, 101, 125, 47, 98, 108, 111, 98, 115, 47, 123, 100, 105, 103, 101, 115, 116, 125, 40, 47, 41], [104, 97, 110, 100, 108, 101, 95, 98, 108, 111, 98, 95, 112, 117, 108, 108]), ([71, 69, 84], [47, 118, 50, 47, 123, 42, 110, 97, 109, 101, 58, 110, 97, 109, 101, 125, 47, 109, 97, 110, 105, 102, 101, 115, 116, 115, 47, 123, 114, 101, 102, 101, 114, 101, 110, 99, 101, 125, 40, 47, 41], [104, 97, 110, 100, 108, 101, 95, 109, 97, 110, 105, 102, 101, 115, 116, 95, 112, 117, 108, 108]), ([72, 69, 65, 68], [47, 118, 50, 47, 123, 42, 110, 97, 109, 101, 58, 110, 97, 109, 101, 125, 47, 109, 97, 110, 105, 102, 101, 115, 116, 115, 47, 123, 114, 101, 102, 101, 114, 101, 110, 99, 101, 125, 40, 47, 41], [104, 97, 110, 100, 108, 101, 95, 109, 97, 110, 105, 102, 101, 115, 116, 95, 112, 117, 108, 108]), ([80, 79, 83, 84], [47, 118, 50, 47, 123, 42, 110, 97, 109, 101, 58, 110, 97, 109, 101, 125, 47, 98, 108, 111, 98, 115, 47, 117, 112, 108, 111, 97, 100, 115, 40, 47, 41], [104, 97, 110, 100, 108, 101, 95, 98, 108, 111, 98, 95, 112, 117, 115, 104, 95, 112, 111, 115, 116]), ([80, 85, 84], [47, 118, 50, 47, 123, 42, 110, 97, 109, 101, 58, 110, 97, 109, 101, 125, 47, 98, 108, 111, 98, 115, 47, 117, 112, 108, 111, 97, 100, 115, 47, 123, 114, 101, 102, 101, 114, 101, 110, 99, 101, 125, 40, 47, 41], [104, 97, 110, 100, 108, 101, 95, 98, 108, 111, 98, 95, 112, 117, 115, 104, 95, 112, 117, 116]), ([80, 85, 84], [47, 118, 50, 47, 123, 42, 110, 97, 109, 101, 58, 110, 97, 109, 101, 125, 47, 109, 97, 110, 105, 102, 101, 115, 116, 115, 47, 123, 114, 101, 102, 101, 114, 101, 110, 99, 101, 125, 40, 47, 41], [104, 97, 110, 100, 108, 101, 95, 109, 97, 110, 105, 102, 101, 115, 116, 95, 112, 117, 116]), ([71, 69, 84], [47, 118, 50, 47, 123, 42, 110, 97, 109, 101, 58, 110, 97, 109, 101, 125, 47, 116, 97, 103, 115, 47, 108, 105, 115, 116, 40, 47, 41], [104, 97, 110, 100, 108, 101, 95, 116, 97, 103, 115, 95, 103, 101, 116]), ([68, 69, 76, 69, 84, 69], [47, 118, 50, 47, 123, 42, 110, 97, 109, 101, 58, 110, 97, 109, 101, 125, 47, 109, 97, 110, 105, 102, 101, 115, 116, 115, 47, 123, 114, 101, 102, 101, 114, 101, 110, 99, 101, 125, 40, 47, 41], [104, 97, 110, 100, 108, 101, 95, 109, 97, 110, 105, 102, 101, 115, 116, 95, 100, 101, 108, 101, 116, 101]), ([68, 69, 76, 69, 84, 69], [47, 118, 50, 47, 123, 42, 110, 97, 109, 101, 58, 110, 97, 109, 101, 125, 47, 98, 108, 111, 98, 115, 47, 123, 100, 105, 103, 101, 115, 116, 125, 40, 47, 41], [104, 97, 110, 100, 108, 101, 95, 98, 108, 111, 98, 95, 100, 101, 108, 101, 116, 101])] := by decide
 
@@ -88,3 +96,22 @@ theorem C17_get_router_exists (env : Env) (d0 d1 d2 d3 : Nat) :
       r.search env (opath .blob slash name digest) =
         some ⟨OK.blob.template, some (OK.blob.exp slash).1, d1, [(lN.name, name), (lD.name, digest)]⟩ :=
   oci_get_blob_pull env d0 d1 d2 d3
+
+/-- **The name constraint accepts exactly the repository-name grammar.** The pattern in the example's source (this run's
+extraction) parses, and the matcher of that pattern answers `true` on precisely the names of the grammar
+name ::= component ('/' component)*, component ::= word (separator word)*, word ::= [a-z0-9]+,
+separator ::= '.' | '_' | '__' | '-'+. -/
+theorem C17_name_pattern_is_grammar :
+    ∃ r, parseRe Generated.ociNamePattern = some r ∧ ∀ n : Bytes, r.matches n = true ↔ OciName.IsName n :=
+  OciName.pattern_is_grammar
+
+/-- the derivative matcher decides the denotation of every regular expression of the model -/
+theorem C17_matcher_decides_denotation (r : Re) (s : Bytes) : r.matches s = true ↔ Re.Lang r s := Re.matches_iff r s
+
+/-- non-vacuity and a few boundary names, evaluated by the matcher of the source's pattern: `library/ubuntu`, `a--b`,
+`a__b` are names; `a___b`, `a_-b`, `A`, `a/`, the empty string are not -/
+theorem C17_name_examples :
+    ((parseRe Generated.ociNamePattern).map (fun r =>
+      [r.matches [108, 105, 98, 114, 97, 114, 121, 47, 117, 98, 117, 110, 116, 117], r.matches [97, 45, 45, 98], r.matches [97, 95, 95, 98],
+       r.matches [97, 95, 95, 95, 98], r.matches [97, 95, 45, 98], r.matches [65], r.matches [97, 47], r.matches []])) =
+    some [true, true, true, false, false, false, false, false] := by decide
